@@ -355,6 +355,7 @@ pub fn judge_registry(ctx: &mut Ctx, r: &PortableRegistry, d: &SDesc, seeds: u64
     let settings = d.build();
     let fp = reg::fingerprint(r);
     let dh = hash_of(&serde_json::to_string(d).unwrap());
+    let mut bounds: std::collections::BTreeMap<u32, u64> = Default::default();
     for t in &r.types {
         let id = t.id;
         // class: no bit sequences / 256-bit integers below the id
@@ -372,9 +373,22 @@ pub fn judge_registry(ctx: &mut Ctx, r: &PortableRegistry, d: &SDesc, seeds: u64
         for s in 0..seeds {
             let seed = ctx.seed.wrapping_mul(977).wrapping_add(s * 31 + id as u64);
             ctx.begin_case(&format!("c14 id {id} seed {seed}"));
-            scale_typegen::verif_hooks::set_budget(Some(20_000_000));
+            // bounded progress (restating "recursion yields an error rather than a crash"): the
+            // transformer may be asked to resolve at most a small multiple of the oracle's unfolding
+            // size of the type (C12's bound; the Rust example resolves a subset of what the SCALE
+            // example resolves: array elements once, sequence elements twice)
+            let bound = *bounds.entry(id).or_insert_with(|| crate::mon::c12::unfolding_with(r, id, &mut Vec::new(), &mut Default::default(), 1));
+            scale_typegen::verif_hooks::start();
+            scale_typegen::verif_hooks::set_budget(Some(bound.saturating_mul(400).saturating_add(20_000).min(20_000_000)));
             let got = guard(|| rust_value_from_seed(id, r, &settings, seed, None, None));
             scale_typegen::verif_hooks::set_budget(None);
+            let events = scale_typegen::verif_hooks::take();
+            let resolves = events.iter().filter(|e| matches!(e.tag, "tf:miss" | "tf:hit-in-progress" | "tf:hit-computed")).count() as u64;
+            ctx.count("resolve_calls_observed", resolves);
+            if bound < 50_000_000 && resolves > bound.saturating_mul(4) + 8 {
+                ctx.violation("C14:progress-bound", format!("Rust example for id {id} seed {seed}: {resolves} resolve calls, oracle unfolding {bound}"), replay(id, seed));
+                continue;
+            }
             let tokens = match got {
                 Err(p) if p.msg.contains("event budget exceeded") => {
                     ctx.violation("C14:progress-bound", format!("rust_value_from_seed({id}) did not finish within 2*10^7 hook events"), replay(id, seed));
@@ -435,6 +449,17 @@ fn settings_variants(r: &PortableRegistry, k: usize) -> SDesc {
 }
 
 pub fn run(ctx: &mut Ctx) {
+    for (i, prog) in recursive_gallery().into_iter().enumerate() {
+        if !ctx.mine(i as u64) {
+            continue;
+        }
+        let r = sim::simulate(&prog).registry;
+        let d = settings_variants(&r, i % 3);
+        let regj = reg::to_json(&r);
+        let dj = serde_json::to_value(&d).unwrap();
+        judge_registry(ctx, &r, &d, ctx.tier.pick(48, 512), &Default::default(), &|id, seed| json!({"kind": "c14", "registry": regj, "sdesc": dj, "id": id, "seed": seed}));
+        ctx.count("gallery_registries", 1);
+    }
     let n = ctx.tier.pick(500u64, 15_000u64);
     for case in 0..n {
         if !ctx.mine(case) {
